@@ -68,7 +68,7 @@ def evalValid (c : Case) (defName payload : String) : String :=
 def evalOp (c : Case) (op tyName payload : String) : String :=
   if op == "valid" then evalValid c tyName payload else
   let σ := c.space
-  match typeId σ tyName with
+  match (match tyName.toNat? with | some n => some n | none => typeId σ tyName) with
   | none => "unsupported"
   | some t =>
     if c.badPattern then "unsupported" else
